@@ -812,9 +812,10 @@ structure Boost (α : Type) where
 
 namespace Boost
 
-/-- `WrappingMatcher.skip_to_quality`: `child.skip_to_quality(minquality / self.boost)` -/
+/-- `WrappingMatcher.skip_to_quality`: nothing is skipped when the boost is not positive, else
+    `child.skip_to_quality(minquality / self.boost)` -/
 def skipToQuality (m : Boost α) (q : Rat) : R (Boost α × Nat) :=
-  if m.boost = 0 then .error .zeroDiv
+  if m.boost ≤ 0 then .ok (m, 0)
   else do
     let (c, k) ← A.skipToQuality m.child (q / m.boost)
     pure ({ m with child := c }, k)
@@ -865,7 +866,10 @@ def findNext (m : Filter α) : R (Filter α) := do
 
 /-- `FilterMatcher.skip_to_quality` -/
 def skipToQuality (m : Filter α) (q : Rat) : R (Filter α × Nat) :=
-  if m.boost = 0 then .error .zeroDiv
+  if m.boost ≤ 0 then do
+    -- `WrappingMatcher.skip_to_quality` returns 0 without moving the child; `_find_next()` still runs
+    let m' ← findNext A m
+    pure (m', 0)
   else do
     let (c, k) ← A.skipToQuality m.child (q / m.boost)
     let m' ← findNext A { m with child := c }
